@@ -913,6 +913,46 @@ def D35_float32_constant_next_to_a_float32_cast_under_double_precision():
     return _wellformed(m)
 
 
+def C18_feed_construction_family():
+    """user_interface._build_ort_inputs on fake sessions with 0..4 inputs, every subset of them supplied as named
+    parameters, and 0..5 positional arrays: parameters are fed by name, the remaining inputs take the positional arrays in
+    order, every session input gets exactly one feed, and too few / too many positional arrays raise ValueError."""
+    import itertools
+    from types import SimpleNamespace
+    from jax2onnx import user_interface as ui
+    n_cases = 0
+    for n_in in range(0, 5):
+        names = [f"i{k}" for k in range(n_in)]
+        for r in range(0, n_in + 1):
+            for named in itertools.combinations(names, r):
+                metas = [SimpleNamespace(name=nm, type="tensor(float)", shape=[2]) for nm in names]
+                sess = SimpleNamespace(get_inputs=lambda metas=metas: metas)
+                params = {nm: np.full((2,), 100.0 + names.index(nm), np.float32) for nm in named}
+                n_pos = n_in - r
+                for n_xs in range(0, 6):
+                    xs = [np.full((2,), float(k), np.float64) for k in range(n_xs)]
+                    try:
+                        feed = ui._build_ort_inputs(sess, xs, params)
+                    except ValueError:
+                        if n_xs == n_pos:
+                            return False, f"inputs {names}, named {list(named)}, {n_xs} positional arrays: raised although the counts match"
+                        n_cases += 1
+                        continue
+                    if n_xs != n_pos:
+                        return False, f"inputs {names}, named {list(named)}: {n_xs} positional arrays accepted where {n_pos} are needed"
+                    if sorted(feed) != sorted(names):
+                        return False, f"inputs {names}, named {list(named)}: feed has the keys {sorted(feed)}"
+                    pos = 0
+                    for nm in names:
+                        want = 100.0 + names.index(nm) if nm in named else float(pos)
+                        if nm not in named:
+                            pos += 1
+                        if feed[nm].dtype != np.float32 or float(feed[nm][0]) != want:
+                            return False, f"inputs {names}, named {list(named)}: input {nm} is fed {feed[nm].tolist()} ({feed[nm].dtype}), expected {want} as float32"
+                    n_cases += 1
+    return True, f"{n_cases} feed constructions consistent"
+
+
 def C03_function_identifiers_unique():
     """the same @onnx_function instantiated inside another function (2,3) and at top level (2,5): every
     function definition has its own (domain, name), the model passes the ONNX checker and agrees with JAX"""
@@ -1367,7 +1407,7 @@ def D31_custom_name_collides_with_loop_body_value():
 
 ALL = {
     "C18_nan_vs_finite": C18_nan_vs_finite, "C18_inf_vs_finite": C18_inf_vs_finite, "C18_shape_mismatch": C18_shape_mismatch,
-    "C18_count_mismatch": C18_count_mismatch, "C18_beyond_tolerance": C18_beyond_tolerance,
+    "C18_count_mismatch": C18_count_mismatch, "C18_beyond_tolerance": C18_beyond_tolerance, "C18_feed_construction_family": C18_feed_construction_family,
     "C17_range_bounds_family": C17_range_bounds_family,
     "C13_apply_patches_restores": C13_apply_patches_restores,
     "C13_x64_flag_restored": C13_x64_flag_restored,
